@@ -410,6 +410,16 @@ func Run(tier string) int {
 		// the quick tier leaves out the high object numbers (they make every xref table 7 KiB long)
 		env = &wprog.Env{NoCompressed: true, NoHigh: true, SmallValues: true}
 	}
+	// aligned documents (aligned.go); first, so that a run capped by the deadline has explored them
+	padMax := ev.Pick(r, 1100, 2200)
+	r.Dim("aligned_documents", fmt.Sprintf("pad 0..%d, every cut from the end of the pad to the end of the file; %d streams with indirect /Length + %d integer objects", padMax, alignedStreams, alignedInts))
+	r.Par(padMax+1, func(p int) {
+		if r.Expired() {
+			return
+		}
+		runAligned(r, p, nil)
+		r.DistinctS(fmt.Sprintf("aligned|%d", p))
+	})
 	pl := plans(r.Thorough())
 	items := wprog.Items(pl, env, 3)
 	r.Dim("plans", len(pl))
@@ -454,16 +464,6 @@ func Run(tier string) int {
 		if r.WantSample() && j.res.NumOps >= 2 {
 			r.Sample(Case{Prog: wprog.Case{Cfg: j.res.Cfg, MaxOps: j.maxOps, Choices: j.choices, Ops: j.res.Ops}, Damage: "cut", Cut: len(j.res.Bytes) / 2})
 		}
-	})
-	// aligned documents (aligned.go)
-	padMax := ev.Pick(r, 1100, 2200)
-	r.Dim("aligned_documents", fmt.Sprintf("pad 0..%d, every cut from the end of the pad to the end of the file; %d streams with indirect /Length + %d integer objects", padMax, alignedStreams, alignedInts))
-	r.Par(padMax+1, func(p int) {
-		if r.Expired() {
-			return
-		}
-		runAligned(r, p, nil)
-		r.DistinctS(fmt.Sprintf("aligned|%d", p))
 	})
 	return r.Finish()
 }
